@@ -57,10 +57,15 @@ FINDING_BREAKS = {"D5": "count", "D5R": "count", "QUITW": "count", "NANID": "wf"
 # =================================================================================================
 # TLC
 # =================================================================================================
+# deviations repaired in /repo (53ccc73): these constants are FALSE also in the "as coded" runs
+REPAIRED = {"Dev_EmptyNoReply", "Dev_NonObjectNoReply", "Dev_NoCommandNoReply", "Dev_WaitFailNoReply",
+            "Dev_DeepNoReply"}
+
+
 def cfg_text(part, dev, maxframes, invs):
     lines = ["CONSTANTS"]
     for d in DEVS:
-        lines.append("  %s = %s" % (d, "TRUE" if dev else "FALSE"))
+        lines.append("  %s = %s" % (d, "TRUE" if dev and d not in REPAIRED else "FALSE"))
     lines += ["  MaxFrames = %d" % maxframes, '  Part = "%s"' % part, "INIT Init", "NEXT Next",
               "CHECK_DEADLOCK FALSE"]
     lines += ["INVARIANT " + i for i in invs]
